@@ -1,5 +1,8 @@
-import Vet.Props.Search
-import Vet.Props.Build
+import Vet.Props.Resolve
+#print axioms Vet.C02_no_false_failure
+#print axioms Vet.C02_failures_exact
+#print axioms Vet.C02_failures_sorted
+#print axioms Vet.C02_violation_priority
 #print axioms Vet.search_complete
 #print axioms Vet.search_fuel_enough
 #print axioms Vet.build_complete
